@@ -251,25 +251,25 @@ def build_rt(config="asan"):
     return build_engine(config, "rt", ["rt.c", "msg.c"])
 
 
-def build_cxxio(config="asan"):
-    """C16 C++ pass: reproc.cpp + the drain/run templates against the real (interposed) C library."""
+def build_cxxio(config="asan", name="cxxio"):
+    """C16 C++ pass (cxxio) / C15 C++ pass (cxxlife): reproc.cpp + the templates against the real (interposed) C library."""
     cfg = CONFIGS[config]
     bdir = os.path.join(BUILD, config)
     lib = build_lib(config)
-    out = os.path.join(bdir, "cxxio")
+    out = os.path.join(bdir, name)
     cpp = os.path.join(REPO, "reproc++/src/reproc.cpp")
     hpp = sorted(glob.glob(os.path.join(REPO, "reproc++/include/reproc++/*.hpp")) +
                  glob.glob(os.path.join(REPO, "reproc++/include/reproc++/detail/*.hpp")))
-    harness = os.path.join(SRC, "cxxio.cpp")
+    harness = os.path.join(SRC, name + ".cpp")
     flags = cfg["cflags"]
-    digest = _hash([cpp, harness, lib, os.path.join(bdir, "wrap.o"), os.path.join(SRC, "common.h")] + hpp, " ".join(flags))
+    digest = _hash([cpp, harness, lib, os.path.join(bdir, "wrap.o"), os.path.join(SRC, "common.h"), os.path.join(SRC, "wrap.h")] + hpp, " ".join(flags))
     stamp = out + ".stamp"
     if os.path.exists(out) and _stamp_ok(stamp, digest):
         return out
     inc = LIB_INC + ["-I" + os.path.join(REPO, "reproc++/include"), "-I" + SRC]
-    o1 = os.path.join(bdir, "cxxio_reproc_cpp.o")
+    o1 = os.path.join(bdir, name + "_reproc_cpp.o")
     run(["g++", "-std=c++11", "-w"] + flags + inc + ["-c", cpp, "-o", o1])
-    o2 = os.path.join(bdir, "cxxio.o")
+    o2 = os.path.join(bdir, name + ".o")
     run(["g++", "-std=c++11"] + flags + inc + ["-c", harness, "-o", o2])
     run(["g++"] + cfg["ldflags"] + [o2, o1, os.path.join(bdir, "wrap.o"), lib, "-o", out + ".tmp", "-lpthread"])
     os.replace(out + ".tmp", out)
